@@ -7,19 +7,20 @@ n="$1"; prop="$2"
 src=/tmp/seed/$n/_seed
 wt=/tmp/vs_$n
 log=/tmp/vs_$n.log
+RUNNER=sh; head -1 "$src/run.sh" | grep -q bash && RUNNER=bash
 rm -rf "$wt"; git -C /repo worktree prune
 /verif/tools/mkscratch.sh "$wt" >/dev/null || exit 2
 cd "$wt" || exit 2
 {
 echo "== seed $n property $prop"
 make -j8 >/dev/null 2>&1; echo "build(orig) rc=$?"
-sh "$src/run.sh" "$wt" >"$wt/demo_orig.out" 2>&1; d0=$?; echo "demo(orig) rc=$d0"
+$RUNNER "$src/run.sh" "$wt" >"$wt/demo_orig.out" 2>&1; d0=$?; echo "demo(orig) rc=$d0"
 git apply "$src/patch.diff"; echo "apply rc=$?"
 make -j8 >/dev/null 2>&1; b=$?; echo "build(patched) rc=$b"
 make -j8 check > "$wt/check.out" 2>&1
 pass=$(grep -c '^PASS:' "$wt/check.out"); fail=$(grep -cE '^(FAIL|ERROR):' "$wt/check.out")
 echo "suite(patched) pass=$pass fail=$fail"
-sh "$src/run.sh" "$wt" >"$wt/demo_patched.out" 2>&1; d1=$?; echo "demo(patched) rc=$d1"
+$RUNNER "$src/run.sh" "$wt" >"$wt/demo_patched.out" 2>&1; d1=$?; echo "demo(patched) rc=$d1"
 if [ "$d0" = 0 ] && [ "$d1" != 0 ] && [ "$pass" = 10 ] && [ "$fail" = 0 ] && [ "$b" = 0 ]; then
   echo "CONFIRMED"
   mkdir -p /verif/seeded/$n
